@@ -181,7 +181,9 @@ def check(an: Analysis) -> None:
         oo = gen_origins(cm)
         if not any("ctx.scope" in o or o.endswith("ScopeContext") for o in oo):
             ob.fail(gen, w, "the scope entered is not the nested scope prepared when the stream was created")
-    body = [s for s in gen.node.body if not (isinstance(s, ast.Expr) and isinstance(s.value, ast.Constant))]
+    body = [s for s in gen.node.body if not (isinstance(s, ast.Expr) and isinstance(s.value, ast.Constant)) and not isinstance(s, (ast.Pass, ast.AnnAssign if False else ast.Pass))]
+    # a trailing plain `return` (the generator just ends) and bare annotations are not work
+    body = [s for s in body if not (isinstance(s, ast.Return) and s.value is None) and not (isinstance(s, ast.AnnAssign) and s.value is None)]
     if len(body) != 1 or not withs or body[0] is not withs[0]:
         ob.fail(gen, body[0] if body else None, "the generator does work outside its scope")
 
@@ -208,6 +210,9 @@ def check(an: Analysis) -> None:
     for r in rets:
         ob.inst(stream, r)
         v = unwrap(r.value)
+        for _hop in range(3):
+            if isinstance(v, ast.Name) and (sv_ := Deps(prog, stream).single_value(v.id)) is not None:
+                v = unwrap(sv_)  # held in a local before it is returned
         ok = isinstance(v, ast.Call) and ((v in runs and v.args and (is_name(v.args[0], gen.name) or _function_named(prog, stream, v.args[0]) is gen)) or is_name(v.func, gen.name) or _function_named(prog, stream, v.func) is gen)
         if ok and not nested_gen:
             # the varargs of ctx.stream must be forwarded to the moved generator (starred, or as two ordinary arguments - checked at the source call in C11.3)
